@@ -506,6 +506,9 @@ class C03(Prop):
                 m = pre + m + post
                 if not mods["ascii"] or r.chance(2, 3):
                     m = widen(m)
+                    if r.chance(1, 2):
+                        # two raw (not wide) bytes before the wide text, the first one alphanumeric or not
+                        m = r.choice([b"xy", b"a-", b"1 ", b"-x", b"  "]) + widen(bytes([h] * r.range(1, 2)) + bytes(lit)) + r.choice([b"", b"x\x00", b" \x00"])
                 parts += [m, r.choice([b"", b"\x20\x00", b"z"])]
             inputs.append(b"".join(parts)[:64].hex())
         subjects = [(bytes([h, h]) + bytes(lit) + b"x").hex(), (bytes([h]) + bytes(lit)).hex()]
@@ -622,7 +625,56 @@ class C03(Prop):
             src += 'rule m%d { condition: "%s" matches %s }\n' % (i, litx, retext)
         return {"node": node, "ci": ci, "da": da, "mods": mods, "src": src, "inputs": inputs, "subjects": subjects}
 
+    def gen_nocase_negated_small(self, rng):
+        """/i or nocase, not wide, only literals / classes / alternations with few combinations, containing a
+        negated class whose surviving letters have their other case inside the negated set (its language under
+        nocase is smaller than its bitmap, possibly empty)."""
+        L = lambda b: ["lit", b, 0]
+        lo = rng.chance(1, 2)                      # survivors are lower-case (or upper-case) letters
+        a, z = (0x61, 0x7A) if lo else (0x41, 0x5A)
+        keep_lo = rng.range(a, z - 2)
+        keep_hi = rng.choice([z, keep_lo + rng.range(0, 3)])
+        keep_hi = min(keep_hi, z)
+        items = []
+        if keep_lo > 0:
+            items.append(["range", 0, keep_lo - 1])
+        if keep_hi < 255:
+            items.append(["range", keep_hi + 1, 255])
+        neg = ["class", ["br", items, True]]
+        if rng.chance(1, 3):
+            neg = ["class", ["br", [["range", 0, 0x60 if lo else 0x40], ["range", (0x7B if lo else 0x5B), 255]], True]]
+        k, zc = rng.choice([0x6B, 0x4B, 0x31]), rng.choice([0x7A, 0x5A, 0x2D])
+        body = [L(k), neg, L(zc)]
+        if rng.chance(1, 3):
+            body = [L(k), ["group", ["alt", [neg, L(0x5F)]]], L(zc)]
+        if rng.chance(1, 4):
+            body = body[1:]
+        node = ["cat", body]
+        nocase_mod = rng.chance(1, 2)
+        mods = {"nocase": nocase_mod, "wide": False, "ascii": False, "fullword": False}
+        ci, da = (not nocase_mod) or rng.chance(1, 3), False
+        retext = "/%s/%s" % (re_text(node), "i" if ci else "")
+        modtext = "".join(" " + m for m in ("nocase", "wide", "ascii", "fullword") if mods[m])
+        mid = [keep_lo, keep_hi, swapcase(keep_lo), swapcase(keep_hi), 0x5F, 0x30]
+        inputs = []
+        for i in range(4):
+            r = rng.fork("nn%d" % i)
+            parts = []
+            for _ in range(r.range(2, 4)):
+                kk = swapcase(k) if r.chance(1, 2) else k
+                zz = swapcase(zc) if r.chance(1, 2) else zc
+                parts += [b"__", bytes([kk, r.choice(mid), zz])]
+            inputs.append(b"".join(parts)[:64].hex())
+        subjects = [bytes([k, keep_lo, zc]).hex(), bytes([k, swapcase(keep_lo), zc]).hex(), bytes([k, 0x5F, zc]).hex()]
+        src = "rule r { strings: $a = %s%s condition: $a or true }\n" % (retext, modtext)
+        for i, sj in enumerate(subjects):
+            litx = "".join("\\x%02x" % b for b in bytes.fromhex(sj))
+            src += 'rule m%d { condition: "%s" matches %s }\n' % (i, litx, retext)
+        return {"node": node, "ci": ci, "da": da, "mods": mods, "src": src, "inputs": inputs, "subjects": subjects}
+
     def gen_case(self, rng):
+        if rng.chance(1, 20):
+            return self.gen_nocase_negated_small(rng)
         if rng.chance(1, 18):
             return self.gen_last_alt_family(rng)
         if rng.chance(1, 18):
@@ -683,7 +735,7 @@ class C03(Prop):
     # ---------------------------------------------------------------- execution
     def execute(self, ctx, cases):
         hc = [{"rules": [{"ns": None, "src": c["src"]}], "params": {"compute_full_matches": True},
-               "inputs": c["inputs"]} for c in cases]
+               "inputs": c["inputs"], "both_profiles": True} for c in cases]
         outs = core.harness_run(ctx.binp, "c03", hc)
         for c, o in zip(cases, outs):
             if isinstance(o, dict) and "desc" in o and o["desc"]:
@@ -716,6 +768,9 @@ class C03(Prop):
     def term(self, ctx, case, out):
         if not isinstance(out, dict) or "desc" not in out or len(out["desc"]) != 1 or out["desc"][0]["hir"] is None:
             return (False, False, 0)
+        if not _hir.profiles_agree(out):
+            ctx.count("profiles_disagree")
+            return (False, False, 0)       # the answer depends on the compiler profile: one of the two is wrong
         if len(out["desc"][0]["literals"]) > 4000:
             # the description does not fit in one Gallina term (coqc overflows its stack): not evaluated
             ctx.count("not_evaluated_too_many_literals")
